@@ -37,9 +37,11 @@ func (vc *VC) execInstr(fr *frame, b *ssa.BasicBlock, ins ssa.Instruction, st *s
 		if len(p.Loc.Path) == 0 && p.Loc.Kind == LCell {
 			vc.oblige("nil-deref", fmt.Sprintf("%s is not nil (field %s)", x.X.Name(), fieldName(x.X.Type(), x.Field)), nil, vc.pos(fr, x.Pos()), st.reach, "(not (= "+p.Loc.Ref+" 0))")
 		}
-		nl := *p.Loc
-		nl.Path = append(append([]int{}, p.Loc.Path...), x.Field)
-		fr.vals[x] = Val{Typ: x.Type(), Loc: &nl}
+		nl := vc.extend(p.Loc, x.Field)
+		fr.vals[x] = Val{Typ: x.Type(), Loc: nl}
+		if len(nl.Path) == 0 && nl.Kind == LCell {
+			fr.vals[x] = Val{T: nl.Ref, Typ: x.Type(), Loc: nl}
+		}
 	case *ssa.Field:
 		v := vc.get(fr, x.X)
 		vc.setTerm(fr, x, vc.S.proj(x.X.Type(), v.T, x.Field))
@@ -147,6 +149,13 @@ func (vc *VC) execInstr(fr *frame, b *ssa.BasicBlock, ins ssa.Instruction, st *s
 			return
 		}
 		vc.oblige("nil-map", fmt.Sprintf("map %s is not nil on assignment", x.Map.Name()), nil, vc.pos(fr, x.Pos()), st.reach, "(not (= "+mv.T+" 0))")
+		if vc.nonNilMap(m) {
+			nz := "(not (= " + val + " 0))"
+			if _, isI := m.Elem().Underlying().(*types.Interface); isI {
+				nz = "(not (= (itag " + val + ") 0))"
+			}
+			vc.oblige("map-inv", fmt.Sprintf("value stored in %s is not nil (map invariant)", x.Map.Name()), nil, vc.pos(fr, x.Pos()), st.reach, nz)
+		}
 		vc.mapStore(st, m, mv.T, k, val)
 	case *ssa.Slice:
 		vc.execSlice(fr, x, st)
@@ -187,8 +196,10 @@ func (vc *VC) execInstr(fr *frame, b *ssa.BasicBlock, ins ssa.Instruction, st *s
 		vc.assumeInv(st, k, m.Key())
 		fr.vals[x] = Val{Typ: x.Type(), Tuple: []Val{{T: okc, Typ: types.Typ[types.Bool]}, vc.mkVal(k, m.Key()), vc.mkVal(v, m.Elem())}}
 	case *ssa.Call:
+		reachBefore := st.reach
 		res := vc.execCall(fr, x.Common(), x, st)
 		fr.vals[x] = res
+		vc.recordErr(fr, b, x, res, reachBefore)
 	case *ssa.RunDefers:
 	default:
 		vc.errorf("%s: unsupported instruction %T (%s)", fr.fn.Name(), ins, ins)
@@ -539,6 +550,14 @@ func (vc *VC) mapLookup(st *state, m *types.Map, ref, k string) (string, string)
 	has := fmt.Sprintf("(and (not (= %s 0)) (select %s %s))", ref, vc.sel(st, d, ref), k)
 	val := fmt.Sprintf("(ite %s (select %s %s) %s)", has, vc.sel(st, v, ref), k, vc.S.zero(m.Elem()))
 	vc.mapKeys[d] = append(vc.mapKeys[d], k)
+	if vc.nonNilMap(m) {
+		sv := fmt.Sprintf("(select %s %s)", vc.sel(st, v, ref), k)
+		nz := "(not (= " + sv + " 0))"
+		if _, isI := m.Elem().Underlying().(*types.Interface); isI {
+			nz = "(not (= (itag " + sv + ") 0))"
+		}
+		vc.assume("true", fmt.Sprintf("(=> %s %s)", has, nz))
+	}
 	// membership implies positive cardinality
 	card := vc.cardFn(m)
 	vc.assume("true", fmt.Sprintf("(=> (select %s %s) (> (%s %s) 0))", vc.sel(st, d, ref), k, card, vc.sel(st, d, ref)))
@@ -608,3 +627,35 @@ func nameOr(v ssa.Value, d string) string {
 }
 
 var _ = strings.Contains
+
+
+// recordErr remembers the error result of a call (for `propagates` contracts).
+func (vc *VC) recordErr(fr *frame, b *ssa.BasicBlock, call *ssa.Call, res Val, reach string) {
+	if fr.depth != 0 {
+		return
+	}
+	var ev Val
+	rt := call.Type()
+	if tup, ok := rt.(*types.Tuple); ok {
+		if tup.Len() == 0 || len(res.Tuple) != tup.Len() {
+			return
+		}
+		ev = res.Tuple[tup.Len()-1]
+		rt = tup.At(tup.Len() - 1).Type()
+	} else {
+		ev = res
+	}
+	if n, ok := rt.(*types.Named); !ok || n.Obj().Name() != "error" || n.Obj().Pkg() != nil {
+		return
+	}
+	name := "call"
+	if callee := call.Common().StaticCallee(); callee != nil {
+		name = funcKey(callee)
+		if strings.HasPrefix(name, "trace.") || strings.HasPrefix(name, "errors.") || strings.HasPrefix(name, "fmt.") {
+			return // constructs or wraps an error on purpose
+		}
+	} else if call.Common().IsInvoke() {
+		name = call.Common().Method.Name()
+	}
+	fr.errCalls = append(fr.errCalls, pendingErr{term: ev.T, reach: reach, what: name, block: b})
+}
